@@ -575,9 +575,26 @@ def product_task(prop, name, srclines, gap_bits=23, k_bits=34, max_paths=600):
                     if l['kind'] == 'label':
                         obs.append(('label %s does not move up' % l['name'],
                                     bool_z3(b['val'][1][l['name']] <= a['val'][1][l['name']])))
+                # every literal instruction that is the expansion of a legal non-hint RVC instruction
+                # must come out in 16 bits (decided on the uncompressed run's word)
+                from .comp import _eligible_concrete
+                for i, l in enumerate(t.lines, 1):
+                    if l['kind'] not in ('insn', 'pseudo2') or l['labels']:
+                        continue
+                    ia, ib = wa.insns(i), wb.insns(i)
+                    for k, (na, va) in enumerate(ia):
+                        if na != 4 or not isinstance(va, int) or k >= len(ib):
+                            continue
+                        if _eligible_concrete(va.to_bytes(4, 'little')):
+                            obs.append(('line %d (%s) is emitted in 16 bits' % (i, l['src']), z3.BoolVal(ib[k][0] == 2)))
                 for oname, ob in obs:
                     r = q(*joint, z3.Not(ob))
                     if r == z3.sat:
+                        if 'is emitted in 16 bits' in oname:
+                            ln = int(oname.split()[1])
+                            report(oname, b, oname + ' fails', lambda ro, rc, ln=ln: ro[0] == 'ok' and rc[0] == 'ok' and
+                                   any(len(d) == 4 and _eligible_concrete(d) for n_, d in rc[4] if n_ == ln))
+                            continue
                         report(oname, b, oname + ' fails', lambda ro, rc: ro[0] == 'ok' and rc[0] == 'ok' and (
                             len(rc[1]) > len(ro[1]) or any(rc[2][k] > ro[2][k] for k in ro[2])))
                     else:
